@@ -184,3 +184,55 @@ for _c in NAMES:
             _trunc(vc, _c, _dl)
         proof("C18/digest-to-int[%s,%d]" % (_c, _dl), functions=[(KEYS, "_truncate_and_convert_digest")],
               family=fam_trunc(_c, _dl))(_p)
+
+
+# ---------------------------------------------------------------------------------------
+# the convenience wrappers hand EVERY option on to the function that does the work (callee stubbed, arguments recorded;
+# sentinels stand for the options, so "the same object arrives" is the obligation)
+
+def _bind(fn_name, names, a, k):
+    got = dict(zip(names, a))
+    got.update(k)
+    return got
+
+
+@proof("C18/keys.wrappers-hand-over-every-option", functions=[(KEYS, "SigningKey.sign"), (KEYS, "SigningKey.sign_deterministic"),
+                                                            (KEYS, "VerifyingKey.verify")],
+       family=lambda seed, tier: [dict()])
+def wrappers(vc):
+    import hashlib
+    K = vc.module(KEYS)
+    C = vc.module(CURVES)
+    sk = K.SigningKey.from_secret_exponent(0x1234567, C.NIST256p, hashlib.sha1)
+    vk = sk.verifying_key
+    SENC, SDEC, ENT, KK, XE = object(), object(), object(), 12345, b"extra"
+    data = b"message"
+    for hf in (hashlib.sha256, hashlib.sha512):
+        dig = hf(data).digest()
+        calls = []
+        sk.sign_digest = lambda *a, **k: (calls.append(_bind("sign_digest", ("digest", "entropy", "sigencode", "k", "allow_truncate"), a, k)), "SIG")[1]
+        out = sk.sign(data, ENT, hf, SENC, KK, True)
+        c = calls[0] if calls else {}
+        vc.ground("sign->sign_digest[%s]" % hf().name, out == "SIG" and len(calls) == 1 and c.get("digest") == dig and c.get("entropy") is ENT
+                  and c.get("sigencode") is SENC and c.get("k") == KK and c.get("allow_truncate") is True, repr(c)[:200])
+        calls = []
+        sk.sign_digest_deterministic = lambda *a, **k: (calls.append(_bind("sdd", ("digest", "hashfunc", "sigencode", "extra_entropy", "allow_truncate"), a, k)), "SIG")[1]
+        out = sk.sign_deterministic(data, hf, SENC, XE)
+        c = calls[0] if calls else {}
+        vc.ground("sign_deterministic->sign_digest_deterministic[%s]" % hf().name, out == "SIG" and len(calls) == 1 and c.get("digest") == dig
+                  and c.get("hashfunc") is hf and c.get("sigencode") is SENC and c.get("extra_entropy") == XE
+                  and c.get("allow_truncate") is True, repr(c)[:200])
+        calls = []
+        vk.verify_digest = lambda *a, **k: (calls.append(_bind("vd", ("signature", "digest", "sigdecode", "allow_truncate"), a, k)), "VERDICT")[1]
+        out = vk.verify(b"sigbytes", data, hf, SDEC, False)
+        c = calls[0] if calls else {}
+        vc.ground("verify->verify_digest[%s]" % hf().name, out == "VERDICT" and len(calls) == 1 and c.get("signature") == b"sigbytes"
+                  and c.get("digest") == dig and c.get("sigdecode") is SDEC and c.get("allow_truncate") is False, repr(c)[:200])
+    # the key's own default hash is used exactly when none is given
+    calls = []
+    sk2 = K.SigningKey.from_secret_exponent(0x1234567, C.NIST256p, hashlib.sha384)
+    sk2.sign_digest_deterministic = lambda *a, **k: (calls.append(_bind("sdd", ("digest", "hashfunc", "sigencode", "extra_entropy", "allow_truncate"), a, k)), "SIG")[1]
+    sk2.sign_deterministic(data)
+    vc.ground("sign_deterministic.default-hash=the-key's", bool(calls) and calls[0].get("digest") == hashlib.sha384(data).digest()
+              and calls[0].get("hashfunc") is hashlib.sha384)
+    vc.cover("wrappers")
